@@ -168,6 +168,118 @@ pub fn run(kind: &str, seed: u64, dir: &Path) -> i32 {
                 1
             }
         }
+        // flush() while other threads log (C04): the marker must be in the file when flush returns
+        "c04flush" => {
+            let mut c = cfg(&mut rng, dir, WMode::BufDont(4096));
+            c.names.naming = NamingK::NoRotation;
+            c.crit = None;
+            c.l2 = true;
+            let built = c.logger().format(flw::fmt_raw).build();
+            let Ok((boxed, handle)) = built else {
+                println!("MIRIJOB inconclusive build");
+                return 2;
+            };
+            let boxed: Arc<Box<dyn log::Log>> = Arc::new(boxed);
+            let mut joins = Vec::new();
+            for t in 1..=2u64 {
+                let b = Arc::clone(&boxed);
+                joins.push(std::thread::spawn(move || {
+                    for s in 0..4u64 {
+                        let m = flw::msg_id(7, t, s, 5);
+                        flw::with_record(log::Level::Info, "flmon::m", &m, |r| b.log(r));
+                    }
+                }));
+            }
+            let path = c.names.path("");
+            let mut bad = None;
+            for k in 0..2u64 {
+                let m = flw::msg_id(7, 0, k, 5);
+                flw::with_record(log::Level::Info, "flmon::m", &m, |r| boxed.log(r));
+                handle.flush();
+                let content = std::fs::read(&path).unwrap_or_default();
+                let needle = format!("{m}\n");
+                if !content.windows(needle.len()).any(|w| w == needle.as_bytes()) {
+                    bad = Some(format!("record {m} is not in the file after flush() returned"));
+                    break;
+                }
+            }
+            for j in joins {
+                let _ = j.join();
+            }
+            handle.shutdown();
+            let content = std::fs::read(&path).unwrap_or_default();
+            drop(handle);
+            if bad.is_none() {
+                if let Err((k, d)) = check_stream(&content, 7, &[2, 4, 4], b"\n") {
+                    bad = Some(format!("{k}: {d}"));
+                }
+            }
+            match bad {
+                None => {
+                    println!("MIRIJOB ok kind=c04flush seed={seed} bytes={}", content.len());
+                    0
+                }
+                Some(d) => {
+                    println!("MIRIJOB VIOLATION kind=c04flush seed={seed} {d}");
+                    1
+                }
+            }
+        }
+        // rotation with a background cleanup thread (C07): limits hold after shutdown, the
+        // survivors are the newest records, nothing is torn
+        "c07bg" => {
+            let wm = if rng.chance(1, 2) { WMode::BufDont(64) } else { WMode::Direct };
+            let mut c = cfg(&mut rng, dir, wm);
+            c.clean = Clean::Logs(1);
+            c.clean_bg = true;
+            c.crit = Some(Crit::Size(30));
+            c.l2 = false;
+            let mut d = match Driver::build(&c) {
+                Ok(d) => d,
+                Err(e) => {
+                    println!("MIRIJOB inconclusive build {e}");
+                    return 2;
+                }
+            };
+            let n = 10u64;
+            for s in 0..n {
+                d.write(log::Level::Info, &flw::msg_id(7, 0, s, 12));
+            }
+            d.shutdown();
+            let obs = match family::observe(&c.names) {
+                Ok(o) => o,
+                Err(e) => {
+                    println!("MIRIJOB inconclusive observe {e}");
+                    return 2;
+                }
+            };
+            let plain = obs
+                .family
+                .iter()
+                .filter(|f| !f.entry.gz && f.entry.kind != family::Kind::Current)
+                .count();
+            let limit = if c.names.naming.is_direct() { 1 } else { 1 };
+            let stream = obs.stream().unwrap_or_default();
+            let ids: Vec<u64> = String::from_utf8_lossy(&stream)
+                .lines()
+                .filter_map(|l| flw::parse_msg_id(l).map(|(_, _, s)| s))
+                .collect();
+            let lines = String::from_utf8_lossy(&stream).lines().count();
+            let tail_ok = !ids.is_empty()
+                && ids.len() == lines
+                && ids.last() == Some(&(n - 1))
+                && ids.windows(2).all(|w| w[1] == w[0] + 1);
+            if plain > limit + usize::from(c.names.naming.is_direct()) {
+                println!("MIRIJOB VIOLATION kind=c07bg seed={seed} {plain} plain files after shutdown (limit {limit}): {:?}", obs.names());
+                1
+            } else if !tail_ok {
+                println!("MIRIJOB VIOLATION kind=c07bg seed={seed} survivors are not an intact tail of the stream: ids {ids:?}, {lines} lines, files {:?}", obs.names());
+                1
+            } else {
+                println!("MIRIJOB ok kind=c07bg seed={seed} files={} ids={}", obs.family.len(), ids.len());
+                0
+            }
+        }
         _ => {
             println!("MIRIJOB inconclusive unknown kind");
             2
